@@ -1,13 +1,687 @@
 package pe
 
+// Self-tests of the oracles of this package (run by the driver before every check):
+// refcrypto against published vectors; iewalk against bytes analysed by hand and against
+// the independent encoder refper; the NAS reader against hand-derived bytes; and the
+// reference AMF against a conformant UE/gNB written by hand for this test (so that the
+// AMF is known to accept conformant behaviour that differs from the emulator's habits).
+
 import (
+	"bytes"
+	"encoding/hex"
+	"fmt"
+	"strings"
 	"testing"
 
+	"free5gclib/aper"
+	"free5gclib/ngap/ngapType"
+
+	"verifh/iewalk"
+	"verifh/refamf"
 	"verifh/refcrypto"
+	"verifh/refper"
 )
+
+func unhex(s string) []byte {
+	b, err := hex.DecodeString(strings.ReplaceAll(s, " ", ""))
+	if err != nil {
+		panic(err)
+	}
+	return b
+}
 
 func TestSelfCrypto(t *testing.T) {
 	if err := refcrypto.SelfTest(); err != nil {
 		t.Fatal(err)
+	}
+}
+
+// The NG Setup Request of the shipped configuration, analysed by hand against X.691 and
+// TS 38.413 (DESIGN.md 3.6): gNB id 000102/24 bits, PLMN 001/01, name "open5gs".
+const ngSetupHand = "00 15 00 35" + // initiatingMessage, procedureCode 21, criticality reject, 53 octets
+	"00 00 04" + // NGSetupRequest: extension bit; 4 IEs
+	"00 1b 00 08" + "00 00 f1 10 10 00 01 02" + // GlobalRANNodeID: choice 0, GlobalGNB-ID{ext,opt}=0; PLMN; gNB-ID choice 0, length 24-22=2 in 4 bits; 24 bits
+	"00 52 40 09" + "03 00 6f 70 65 6e 35 67 73" + // RANNodeName: size ext 0, length 7-1 in 8 bits, aligned; 7 characters
+	"00 66 00 10" + "00 00 00 00 01 00 00 f1 10 00 00 10 08 01 02 03" + // SupportedTAList: 1 item; TAC; 1 PLMN; 1 slice: sd present, sst 1, sd 010203
+	"00 15 40 01" + "40" // DefaultPagingDRX v128
+
+func TestSelfIewalkHandAnalysed(t *testing.T) {
+	p, err := iewalk.ParsePDU(unhex(ngSetupHand))
+	if err != nil {
+		t.Fatal(err)
+	}
+	if p.Class != iewalk.ClassInitiating || p.ProcedureCode != 21 || p.Criticality != iewalk.CritReject || len(p.IEs) != 4 || p.Name() != "NGSetupRequest" {
+		t.Fatalf("framing: %+v", p)
+	}
+	if f := p.Check(); len(f) != 0 {
+		t.Fatalf("table check: %v", f)
+	}
+	g, err := iewalk.DecodeGlobalRANNodeID(p.Find(iewalk.IDGlobalRANNodeID).Value)
+	if err != nil || g.Kind != 0 || g.PLMN != (iewalk.PLMN{0x00, 0xf1, 0x10}) || g.BitLen != 24 || !bytes.Equal(g.GNBID, []byte{0, 1, 2}) {
+		t.Fatalf("GlobalRANNodeID: %+v %v", g, err)
+	}
+	if mcc, mnc := g.PLMN.Digits(); mcc != "001" || mnc != "01" {
+		t.Fatalf("PLMN digits %s %s", mcc, mnc)
+	}
+	n, err := iewalk.DecodeRANNodeName(p.Find(iewalk.IDRANNodeName).Value)
+	if err != nil || n != "open5gs" {
+		t.Fatalf("RANNodeName %q %v", n, err)
+	}
+	tas, err := iewalk.DecodeSupportedTAList(p.Find(iewalk.IDSupportedTAList).Value)
+	if err != nil || len(tas) != 1 || tas[0].TAC != [3]byte{0, 0, 1} || len(tas[0].PLMNs) != 1 || tas[0].PLMNs[0].PLMN != (iewalk.PLMN{0x00, 0xf1, 0x10}) ||
+		len(tas[0].PLMNs[0].Slices) != 1 || tas[0].PLMNs[0].Slices[0] != (iewalk.SNSSAI{SST: 1, HasSD: true, SD: [3]byte{1, 2, 3}}) {
+		t.Fatalf("SupportedTAList %+v %v", tas, err)
+	}
+	d, err := iewalk.DecodePagingDRX(p.Find(iewalk.IDDefaultPagingDRX).Value)
+	if err != nil || d != 2 {
+		t.Fatalf("PagingDRX %d %v", d, err)
+	}
+	// every strict prefix is refused, and so are the three garbage families of C19
+	good := unhex(ngSetupHand)
+	for i := 0; i < len(good); i++ {
+		if _, err := iewalk.ParsePDU(good[:i]); err == nil {
+			t.Fatalf("prefix of %d octets accepted", i)
+		}
+	}
+	for _, fam := range []string{"choice3", "length"} {
+		if _, err := iewalk.ParsePDU(garble(refamf.Fault{Garbage: fam}, good)); err == nil {
+			t.Fatalf("garbage family %s accepted", fam)
+		}
+	}
+	// hand-derived integers: AMF-UE-NGAP-ID 2^32 = length 5 (100 in 3 bits), aligned, 01 00 00 00 00
+	if v, err := iewalk.DecodeAMFUENGAPID(unhex("80 01 00 00 00 00")); err != nil || v != 1<<32 {
+		t.Fatalf("AMF-UE-NGAP-ID %d %v", v, err)
+	}
+	if v, err := iewalk.DecodeAMFUENGAPID(unhex("00 00")); err != nil || v != 0 {
+		t.Fatalf("AMF-UE-NGAP-ID %d %v", v, err)
+	}
+	if v, err := iewalk.DecodeRANUENGAPID(unhex("40 01 00")); err != nil || v != 256 {
+		t.Fatalf("RAN-UE-NGAP-ID %d %v", v, err)
+	}
+	if _, err := iewalk.DecodeRANUENGAPID(unhex("40 01 00 00")); err == nil {
+		t.Fatalf("trailing octet accepted")
+	}
+	// RRCEstablishmentCause mt-Access (2): extension bit 0, 4 bits 0010
+	if v, ext, err := iewalk.DecodeRRCEstablishmentCause(unhex("10")); err != nil || v != 2 || ext {
+		t.Fatalf("RRCEstablishmentCause %d %v %v", v, ext, err)
+	}
+}
+
+// ---- a hand-written gNB/UE side (values built with the ngapType data structures, bytes by refper)
+
+type testUE struct {
+	ran, amf uint64
+	supi     string
+	k, opc   [16]byte
+	keys     refcrypto.Keys5G
+	ul, dl   uint32
+	plmn     [3]byte
+	psi      int
+	gtp      [4]byte
+	guti     []byte
+}
+
+func uli(plmn [3]byte) *ngapType.UserLocationInformation {
+	u := &ngapType.UserLocationInformation{Present: ngapType.UserLocationInformationPresentUserLocationInformationNR, UserLocationInformationNR: new(ngapType.UserLocationInformationNR)}
+	u.UserLocationInformationNR.NRCGI.PLMNIdentity.Value = aper.OctetString(plmn[:])
+	u.UserLocationInformationNR.NRCGI.NRCellIdentity.Value = aper.BitString{Bytes: []byte{1, 2, 3, 4, 0x50}, BitLength: 36}
+	u.UserLocationInformationNR.TAI.PLMNIdentity.Value = aper.OctetString(plmn[:])
+	u.UserLocationInformationNR.TAI.TAC.Value = aper.OctetString{0, 0, 7}
+	return u
+}
+
+func enc(t testing.TB, p ngapType.NGAPPDU) []byte {
+	b, _, err := refper.Encode(p, "valueExt,valueLB:0,valueUB:2")
+	if err != nil {
+		t.Fatalf("refper: %v", err)
+	}
+	return b
+}
+
+func initMsg(proc int64, crit aper.Enumerated) (ngapType.NGAPPDU, *ngapType.InitiatingMessage) {
+	var p ngapType.NGAPPDU
+	p.Present = ngapType.NGAPPDUPresentInitiatingMessage
+	p.InitiatingMessage = new(ngapType.InitiatingMessage)
+	p.InitiatingMessage.ProcedureCode.Value = proc
+	p.InitiatingMessage.Criticality.Value = crit
+	return p, p.InitiatingMessage
+}
+func succMsg(proc int64) (ngapType.NGAPPDU, *ngapType.SuccessfulOutcome) {
+	var p ngapType.NGAPPDU
+	p.Present = ngapType.NGAPPDUPresentSuccessfulOutcome
+	p.SuccessfulOutcome = new(ngapType.SuccessfulOutcome)
+	p.SuccessfulOutcome.ProcedureCode.Value = proc
+	p.SuccessfulOutcome.Criticality.Value = ngapType.CriticalityPresentReject
+	return p, p.SuccessfulOutcome
+}
+
+const rj, ig = ngapType.CriticalityPresentReject, ngapType.CriticalityPresentIgnore
+
+func ngSetupRequest(t testing.TB, plmn [3]byte, gnbID []byte, bits uint64, name string) []byte {
+	p, im := initMsg(ngapType.ProcedureCodeNGSetup, rj)
+	im.Value.Present = ngapType.InitiatingMessagePresentNGSetupRequest
+	im.Value.NGSetupRequest = new(ngapType.NGSetupRequest)
+	l := &im.Value.NGSetupRequest.ProtocolIEs
+	ie := ngapType.NGSetupRequestIEs{}
+	ie.Id.Value, ie.Criticality.Value, ie.Value.Present = ngapType.ProtocolIEIDGlobalRANNodeID, rj, ngapType.NGSetupRequestIEsPresentGlobalRANNodeID
+	ie.Value.GlobalRANNodeID = &ngapType.GlobalRANNodeID{Present: ngapType.GlobalRANNodeIDPresentGlobalGNBID, GlobalGNBID: &ngapType.GlobalGNBID{
+		PLMNIdentity: ngapType.PLMNIdentity{Value: aper.OctetString(plmn[:])},
+		GNBID:        ngapType.GNBID{Present: ngapType.GNBIDPresentGNBID, GNBID: &aper.BitString{Bytes: gnbID, BitLength: bits}}}}
+	l.List = append(l.List, ie)
+	if name != "" {
+		ie = ngapType.NGSetupRequestIEs{}
+		ie.Id.Value, ie.Criticality.Value, ie.Value.Present = ngapType.ProtocolIEIDRANNodeName, ig, ngapType.NGSetupRequestIEsPresentRANNodeName
+		ie.Value.RANNodeName = &ngapType.RANNodeName{Value: name}
+		l.List = append(l.List, ie)
+	}
+	ie = ngapType.NGSetupRequestIEs{}
+	ie.Id.Value, ie.Criticality.Value, ie.Value.Present = ngapType.ProtocolIEIDSupportedTAList, rj, ngapType.NGSetupRequestIEsPresentSupportedTAList
+	ta := ngapType.SupportedTAItem{}
+	ta.TAC.Value = aper.OctetString{0, 0, 7}
+	bp := ngapType.BroadcastPLMNItem{PLMNIdentity: ngapType.PLMNIdentity{Value: aper.OctetString(plmn[:])}}
+	bp.TAISliceSupportList.List = []ngapType.SliceSupportItem{{SNSSAI: ngapType.SNSSAI{SST: ngapType.SST{Value: aper.OctetString{9}}}}}
+	ta.BroadcastPLMNList.List = []ngapType.BroadcastPLMNItem{bp}
+	ie.Value.SupportedTAList = &ngapType.SupportedTAList{List: []ngapType.SupportedTAItem{ta}}
+	l.List = append(l.List, ie)
+	ie = ngapType.NGSetupRequestIEs{}
+	ie.Id.Value, ie.Criticality.Value, ie.Value.Present = ngapType.ProtocolIEIDDefaultPagingDRX, ig, ngapType.NGSetupRequestIEsPresentDefaultPagingDRX
+	ie.Value.DefaultPagingDRX = &ngapType.PagingDRX{Value: ngapType.PagingDRXPresentV32}
+	l.List = append(l.List, ie)
+	return enc(t, p)
+}
+
+func (u *testUE) initialUE(t testing.TB, nas []byte) []byte {
+	p, im := initMsg(ngapType.ProcedureCodeInitialUEMessage, ig)
+	im.Value.Present = ngapType.InitiatingMessagePresentInitialUEMessage
+	im.Value.InitialUEMessage = new(ngapType.InitialUEMessage)
+	l := &im.Value.InitialUEMessage.ProtocolIEs
+	type V = ngapType.InitialUEMessageIEsValue
+	add := func(id int64, c aper.Enumerated, pr int, f func(v *V)) {
+		ie := ngapType.InitialUEMessageIEs{}
+		ie.Id.Value, ie.Criticality.Value, ie.Value.Present = id, c, pr
+		f(&ie.Value)
+		l.List = append(l.List, ie)
+	}
+	add(ngapType.ProtocolIEIDRANUENGAPID, rj, ngapType.InitialUEMessageIEsPresentRANUENGAPID, func(v *V) { v.RANUENGAPID = &ngapType.RANUENGAPID{Value: int64(u.ran)} })
+	add(ngapType.ProtocolIEIDNASPDU, rj, ngapType.InitialUEMessageIEsPresentNASPDU, func(v *V) { v.NASPDU = &ngapType.NASPDU{Value: nas} })
+	add(ngapType.ProtocolIEIDUserLocationInformation, rj, ngapType.InitialUEMessageIEsPresentUserLocationInformation, func(v *V) { v.UserLocationInformation = uli(u.plmn) })
+	add(ngapType.ProtocolIEIDRRCEstablishmentCause, ig, ngapType.InitialUEMessageIEsPresentRRCEstablishmentCause, func(v *V) {
+		v.RRCEstablishmentCause = &ngapType.RRCEstablishmentCause{Value: ngapType.RRCEstablishmentCausePresentMoSignalling}
+	})
+	return enc(t, p)
+}
+
+func (u *testUE) uplinkNAS(t testing.TB, nas []byte) []byte {
+	p, im := initMsg(ngapType.ProcedureCodeUplinkNASTransport, ig)
+	im.Value.Present = ngapType.InitiatingMessagePresentUplinkNASTransport
+	im.Value.UplinkNASTransport = new(ngapType.UplinkNASTransport)
+	l := &im.Value.UplinkNASTransport.ProtocolIEs
+	type V = ngapType.UplinkNASTransportIEsValue
+	add := func(id int64, c aper.Enumerated, pr int, f func(v *V)) {
+		ie := ngapType.UplinkNASTransportIEs{}
+		ie.Id.Value, ie.Criticality.Value, ie.Value.Present = id, c, pr
+		f(&ie.Value)
+		l.List = append(l.List, ie)
+	}
+	add(ngapType.ProtocolIEIDAMFUENGAPID, rj, ngapType.UplinkNASTransportIEsPresentAMFUENGAPID, func(v *V) { v.AMFUENGAPID = &ngapType.AMFUENGAPID{Value: int64(u.amf)} })
+	add(ngapType.ProtocolIEIDRANUENGAPID, rj, ngapType.UplinkNASTransportIEsPresentRANUENGAPID, func(v *V) { v.RANUENGAPID = &ngapType.RANUENGAPID{Value: int64(u.ran)} })
+	add(ngapType.ProtocolIEIDNASPDU, rj, ngapType.UplinkNASTransportIEsPresentNASPDU, func(v *V) { v.NASPDU = &ngapType.NASPDU{Value: nas} })
+	add(ngapType.ProtocolIEIDUserLocationInformation, ig, ngapType.UplinkNASTransportIEsPresentUserLocationInformation, func(v *V) { v.UserLocationInformation = uli(u.plmn) })
+	return enc(t, p)
+}
+
+func (u *testUE) transfer(t testing.TB) []byte {
+	var tr ngapType.PDUSessionResourceSetupResponseTransfer
+	q := &tr.QosFlowPerTNLInformation
+	q.UPTransportLayerInformation.Present = ngapType.UPTransportLayerInformationPresentGTPTunnel
+	q.UPTransportLayerInformation.GTPTunnel = &ngapType.GTPTunnel{
+		TransportLayerAddress: ngapType.TransportLayerAddress{Value: aper.BitString{Bytes: u.gtp[:], BitLength: 32}},
+		GTPTEID:               ngapType.GTPTEID{Value: aper.OctetString{0xde, 0xad, 0xbe, 0xef}}}
+	q.AssociatedQosFlowList.List = []ngapType.AssociatedQosFlowItem{{QosFlowIdentifier: ngapType.QosFlowIdentifier{Value: 9}}, {QosFlowIdentifier: ngapType.QosFlowIdentifier{Value: 63}}}
+	b, _, err := refper.Encode(tr, "valueExt")
+	if err != nil {
+		t.Fatalf("refper: %v", err)
+	}
+	return b
+}
+
+func (u *testUE) idsOutcome(t testing.TB, proc int64, present int, extra func(so *ngapType.SuccessfulOutcome)) []byte {
+	p, so := succMsg(proc)
+	so.Value.Present = present
+	extra(so)
+	return enc(t, p)
+}
+
+func (u *testUE) icsResponse(t testing.TB, withSession bool) []byte {
+	return u.idsOutcome(t, ngapType.ProcedureCodeInitialContextSetup, ngapType.SuccessfulOutcomePresentInitialContextSetupResponse, func(so *ngapType.SuccessfulOutcome) {
+		so.Value.InitialContextSetupResponse = new(ngapType.InitialContextSetupResponse)
+		l := &so.Value.InitialContextSetupResponse.ProtocolIEs
+		ie := ngapType.InitialContextSetupResponseIEs{}
+		ie.Id.Value, ie.Criticality.Value, ie.Value.Present = ngapType.ProtocolIEIDAMFUENGAPID, ig, ngapType.InitialContextSetupResponseIEsPresentAMFUENGAPID
+		ie.Value.AMFUENGAPID = &ngapType.AMFUENGAPID{Value: int64(u.amf)}
+		l.List = append(l.List, ie)
+		ie = ngapType.InitialContextSetupResponseIEs{}
+		ie.Id.Value, ie.Criticality.Value, ie.Value.Present = ngapType.ProtocolIEIDRANUENGAPID, ig, ngapType.InitialContextSetupResponseIEsPresentRANUENGAPID
+		ie.Value.RANUENGAPID = &ngapType.RANUENGAPID{Value: int64(u.ran)}
+		l.List = append(l.List, ie)
+		if withSession {
+			ie = ngapType.InitialContextSetupResponseIEs{}
+			ie.Id.Value, ie.Criticality.Value, ie.Value.Present = ngapType.ProtocolIEIDPDUSessionResourceSetupListCxtRes, ig, ngapType.InitialContextSetupResponseIEsPresentPDUSessionResourceSetupListCxtRes
+			it := ngapType.PDUSessionResourceSetupItemCxtRes{PDUSessionResourceSetupResponseTransfer: u.transfer(t)}
+			it.PDUSessionID.Value = int64(u.psi)
+			ie.Value.PDUSessionResourceSetupListCxtRes = &ngapType.PDUSessionResourceSetupListCxtRes{List: []ngapType.PDUSessionResourceSetupItemCxtRes{it}}
+			l.List = append(l.List, ie)
+		}
+	})
+}
+
+func (u *testUE) setupResponse(t testing.TB) []byte {
+	return u.idsOutcome(t, ngapType.ProcedureCodePDUSessionResourceSetup, ngapType.SuccessfulOutcomePresentPDUSessionResourceSetupResponse, func(so *ngapType.SuccessfulOutcome) {
+		so.Value.PDUSessionResourceSetupResponse = new(ngapType.PDUSessionResourceSetupResponse)
+		l := &so.Value.PDUSessionResourceSetupResponse.ProtocolIEs
+		ie := ngapType.PDUSessionResourceSetupResponseIEs{}
+		ie.Id.Value, ie.Criticality.Value, ie.Value.Present = ngapType.ProtocolIEIDAMFUENGAPID, ig, ngapType.PDUSessionResourceSetupResponseIEsPresentAMFUENGAPID
+		ie.Value.AMFUENGAPID = &ngapType.AMFUENGAPID{Value: int64(u.amf)}
+		l.List = append(l.List, ie)
+		ie = ngapType.PDUSessionResourceSetupResponseIEs{}
+		ie.Id.Value, ie.Criticality.Value, ie.Value.Present = ngapType.ProtocolIEIDRANUENGAPID, ig, ngapType.PDUSessionResourceSetupResponseIEsPresentRANUENGAPID
+		ie.Value.RANUENGAPID = &ngapType.RANUENGAPID{Value: int64(u.ran)}
+		l.List = append(l.List, ie)
+		ie = ngapType.PDUSessionResourceSetupResponseIEs{}
+		ie.Id.Value, ie.Criticality.Value, ie.Value.Present = ngapType.ProtocolIEIDPDUSessionResourceSetupListSURes, ig, ngapType.PDUSessionResourceSetupResponseIEsPresentPDUSessionResourceSetupListSURes
+		it := ngapType.PDUSessionResourceSetupItemSURes{PDUSessionResourceSetupResponseTransfer: u.transfer(t)}
+		it.PDUSessionID.Value = int64(u.psi)
+		ie.Value.PDUSessionResourceSetupListSURes = &ngapType.PDUSessionResourceSetupListSURes{List: []ngapType.PDUSessionResourceSetupItemSURes{it}}
+		l.List = append(l.List, ie)
+	})
+}
+
+func (u *testUE) releaseResponse(t testing.TB) []byte {
+	return u.idsOutcome(t, ngapType.ProcedureCodePDUSessionResourceRelease, ngapType.SuccessfulOutcomePresentPDUSessionResourceReleaseResponse, func(so *ngapType.SuccessfulOutcome) {
+		so.Value.PDUSessionResourceReleaseResponse = new(ngapType.PDUSessionResourceReleaseResponse)
+		l := &so.Value.PDUSessionResourceReleaseResponse.ProtocolIEs
+		ie := ngapType.PDUSessionResourceReleaseResponseIEs{}
+		ie.Id.Value, ie.Criticality.Value, ie.Value.Present = ngapType.ProtocolIEIDAMFUENGAPID, ig, ngapType.PDUSessionResourceReleaseResponseIEsPresentAMFUENGAPID
+		ie.Value.AMFUENGAPID = &ngapType.AMFUENGAPID{Value: int64(u.amf)}
+		l.List = append(l.List, ie)
+		ie = ngapType.PDUSessionResourceReleaseResponseIEs{}
+		ie.Id.Value, ie.Criticality.Value, ie.Value.Present = ngapType.ProtocolIEIDRANUENGAPID, ig, ngapType.PDUSessionResourceReleaseResponseIEsPresentRANUENGAPID
+		ie.Value.RANUENGAPID = &ngapType.RANUENGAPID{Value: int64(u.ran)}
+		l.List = append(l.List, ie)
+		ie = ngapType.PDUSessionResourceReleaseResponseIEs{}
+		ie.Id.Value, ie.Criticality.Value, ie.Value.Present = ngapType.ProtocolIEIDPDUSessionResourceReleasedListRelRes, ig, ngapType.PDUSessionResourceReleaseResponseIEsPresentPDUSessionResourceReleasedListRelRes
+		it := ngapType.PDUSessionResourceReleasedItemRelRes{PDUSessionResourceReleaseResponseTransfer: aper.OctetString{0x00}}
+		it.PDUSessionID.Value = int64(u.psi)
+		ie.Value.PDUSessionResourceReleasedListRelRes = &ngapType.PDUSessionResourceReleasedListRelRes{List: []ngapType.PDUSessionResourceReleasedItemRelRes{it}}
+		l.List = append(l.List, ie)
+	})
+}
+
+func (u *testUE) ctxReleaseComplete(t testing.TB) []byte {
+	return u.idsOutcome(t, ngapType.ProcedureCodeUEContextRelease, ngapType.SuccessfulOutcomePresentUEContextReleaseComplete, func(so *ngapType.SuccessfulOutcome) {
+		so.Value.UEContextReleaseComplete = new(ngapType.UEContextReleaseComplete)
+		l := &so.Value.UEContextReleaseComplete.ProtocolIEs
+		ie := ngapType.UEContextReleaseCompleteIEs{}
+		ie.Id.Value, ie.Criticality.Value, ie.Value.Present = ngapType.ProtocolIEIDAMFUENGAPID, ig, ngapType.UEContextReleaseCompleteIEsPresentAMFUENGAPID
+		ie.Value.AMFUENGAPID = &ngapType.AMFUENGAPID{Value: int64(u.amf)}
+		l.List = append(l.List, ie)
+		ie = ngapType.UEContextReleaseCompleteIEs{}
+		ie.Id.Value, ie.Criticality.Value, ie.Value.Present = ngapType.ProtocolIEIDRANUENGAPID, ig, ngapType.UEContextReleaseCompleteIEsPresentRANUENGAPID
+		ie.Value.RANUENGAPID = &ngapType.RANUENGAPID{Value: int64(u.ran)}
+		l.List = append(l.List, ie)
+		ie = ngapType.UEContextReleaseCompleteIEs{}
+		ie.Id.Value, ie.Criticality.Value, ie.Value.Present = ngapType.ProtocolIEIDPDUSessionResourceListCxtRelCpl, rj, ngapType.UEContextReleaseCompleteIEsPresentPDUSessionResourceListCxtRelCpl
+		it := ngapType.PDUSessionResourceItemCxtRelCpl{}
+		it.PDUSessionID.Value = int64(u.psi)
+		ie.Value.PDUSessionResourceListCxtRelCpl = &ngapType.PDUSessionResourceListCxtRelCpl{List: []ngapType.PDUSessionResourceItemCxtRelCpl{it}}
+		l.List = append(l.List, ie)
+	})
+}
+
+// protect: security protected 5GS NAS message, integrity NIA2 (BEARER 1, DIRECTION uplink), null ciphering.
+func (u *testUE) protect(ht byte, plain []byte) []byte {
+	if ht == 3 || ht == 4 {
+		u.ul = 0
+	}
+	p := append([]byte{byte(u.ul)}, plain...)
+	mac := refcrypto.EIA2(u.keys.KnasInt, u.ul, 1, 0, p)
+	u.ul++
+	return append(append([]byte{0x7e, ht}, mac[:]...), p...)
+}
+
+func bcd(d string) []byte {
+	var out []byte
+	for i := 0; i < len(d); i += 2 {
+		hi := byte(0xf)
+		if i+1 < len(d) {
+			hi = d[i+1] - '0'
+		}
+		out = append(out, hi<<4|(d[i]-'0'))
+	}
+	return out
+}
+
+// dlNAS extracts (AMF-UE-NGAP-ID, NAS-PDU) from a downlink PDU with the generic reader.
+func dlNAS(t testing.TB, dl []byte) (uint64, []byte) {
+	p, err := iewalk.ParsePDU(dl)
+	if err != nil {
+		t.Fatalf("downlink PDU unreadable: %v (%x)", err, dl)
+	}
+	var id uint64
+	var nas []byte
+	if ie := p.Find(iewalk.IDAMFUENGAPID); ie != nil {
+		if id, err = iewalk.DecodeAMFUENGAPID(ie.Value); err != nil {
+			t.Fatal(err)
+		}
+	}
+	if ie := p.Find(iewalk.IDNASPDU); ie != nil {
+		if nas, err = iewalk.DecodeNASPDU(ie.Value); err != nil {
+			t.Fatal(err)
+		}
+	}
+	return id, nas
+}
+
+// TestSelfAMFAcceptsConformantUE: a complete life of two UEs played by the hand-written
+// gNB/UE above, with the liberties a conformant implementation may take (Registration
+// Complete before the Initial Context Setup Response, Release Complete before the Release
+// Response, integrity-only Service Request, GUTI in the de-registration, no RAN node name,
+// PDU session identity 5, 3-digit MNC, AMF-UE-NGAP-ID above 2^32).
+func TestSelfAMFAcceptsConformantUE(t *testing.T) {
+	for _, variant := range []int{0, 1} {
+		prov := refamf.Provision{MCC: "901", MNC: "070", IMSI: "901070000000009", K: "465b5ce8b199b49faa5f0a2ee238a6bc", OP: "cdc202d5123e20f62b6d676ac72cb318", SST: 9, SD: "", GnbGTP: "10.9.8.7"}
+		if variant == 1 {
+			prov = refamf.Provision{MCC: "001", MNC: "01", IMSI: "00101012345", K: "465b5ce8b199b49faa5f0a2ee238a6bc", OPc: "cd63cb71954a9f4e48a5994e37a02baf", SST: 1, SD: "0a0b0c", GnbGTP: "192.168.0.1"}
+		}
+		sc := refamf.Scenario{Prov: prov, Policy: refamf.Policy{DistinctSUPI: true},
+			NGSetup: refamf.NGSetupChoice{RelativeCapacity: 255, AMFRegion: 2, AMFSet: 1023, AMFPointer: 63, ExtraGUAMIs: 1, ExtraSlices: 2}}
+		for i := 0; i < 2; i++ {
+			sc.UEs = append(sc.UEs, refamf.UEChoice{RAND: "23553cbe9637a89d218ae64dae47bf35", SQN: "ff9bb4d0b607", AMFField: "b9b9", NgKSI: 3 * i, AMFUEID: 1<<40 - 1 - uint64(i)<<33,
+				Options: uint32(refamf.OptEnd-1) * uint32(i), UEIP: "10.45.0.2", UPFIP: "10.0.0.9", TEID: 0xffffffff, AMBRDL: 4000000000000, AMBRUL: 1, Cause5GSM: -1 + 51*i,
+				NQoSRules: 1 + 5*i, NFilters: 4 * i, NFlowDescs: 3 * i, FlowParams: 3 * i, SSCMode: 1, DNN: "internet", ReleaseCause: 36})
+		}
+		a, err := refamf.New(sc)
+		if err != nil {
+			t.Fatal(err)
+		}
+		step := func(what string, ul []byte, wantDL int) [][]byte {
+			dls, v := a.Handle(ul)
+			if v != nil {
+				t.Fatalf("variant %d: the reference AMF rejects a conformant %s: %v", variant, what, v)
+			}
+			if len(dls) != wantDL {
+				t.Fatalf("variant %d: %s triggered %d downlink PDUs, expected %d", variant, what, len(dls), wantDL)
+			}
+			for _, d := range dls {
+				if len(d) > 2048 {
+					t.Fatalf("downlink PDU of %d octets", len(d))
+				}
+			}
+			return dls
+		}
+		plmn := refamf.EncodePLMN(prov.MCC, prov.MNC)
+		name := "gnb one"
+		if variant == 1 {
+			name = ""
+		}
+		step("NGSetupRequest", ngSetupRequest(t, plmn, []byte{0xff, 0xff, 0xff, 0xfe}, 31, name), 1)
+		var k, opc [16]byte
+		copy(k[:], unhex(prov.K))
+		if prov.OPc != "" {
+			copy(opc[:], unhex(prov.OPc))
+		} else {
+			var op [16]byte
+			copy(op[:], unhex(prov.OP))
+			opc = refcrypto.OPc(k, op)
+		}
+		msin0 := prov.IMSI[3+len(prov.MNC):]
+		var ues []*testUE
+		for i := 0; i < 2; i++ {
+			msin := fmt.Sprintf("%0*d", len(msin0), atoi(msin0)+i*3)
+			u := &testUE{ran: uint64(0xfffffffe + i), supi: prov.MCC + prov.MNC + msin, plmn: plmn, psi: 5 + 10*i*variant}
+			copy(u.gtp[:], []byte{10, 9, 8, 7})
+			if variant == 1 {
+				copy(u.gtp[:], []byte{192, 168, 0, 1})
+			}
+			ues = append(ues, u)
+			suci := append([]byte{0x01, plmn[0], plmn[1], plmn[2], 0xf0, 0xff, 0x00, 0x00}, bcd(msin)...)
+			rr := append([]byte{0x7e, 0x00, 0x41, 0x79, byte(len(suci) >> 8), byte(len(suci))}, suci...)
+			rr = append(rr, 0x10, 0x01, 0x03, 0x2e, 0x04, 0xe0, 0xe0, 0x00, 0x00) // 5GMM capability; UE security capability EA0-2, IA0-2 (+EPS octets)
+			dl := step("InitialUEMessage/RegistrationRequest", u.initialUE(t, rr), 1)
+			amf, ar := dlNAS(t, dl[0])
+			u.amf = amf
+			if amf != sc.UEs[i].AMFUEID {
+				t.Fatalf("AMF-UE-NGAP-ID %d in the downlink, scenario says %d", amf, sc.UEs[i].AMFUEID)
+			}
+			// Authentication Request: 7e 00 56 ngKSI | ABBA LV | 21 RAND | 20 10 AUTN
+			if ar[2] != 0x56 || int(ar[3]) != sc.UEs[i].NgKSI || ar[4] != 2 || ar[7] != 0x21 || ar[24] != 0x20 || ar[25] != 0x10 {
+				t.Fatalf("Authentication Request layout: %x", ar)
+			}
+			var rnd [16]byte
+			copy(rnd[:], ar[8:24])
+			autn := ar[26:42]
+			// UE side of 5G AKA: AK from f5, SQN recovered, MAC-A verified, RES* derived
+			mo := refcrypto.Milenage(k, opc, rnd, [6]byte{}, [2]byte{})
+			var sqn, sx [6]byte
+			for j := range sqn {
+				sx[j] = autn[j]
+				sqn[j] = autn[j] ^ mo.AK[j]
+			}
+			mo = refcrypto.Milenage(k, opc, rnd, sqn, [2]byte{autn[6], autn[7]})
+			if !bytes.Equal(mo.MacA[:], autn[8:16]) || autn[6]&0x80 == 0 {
+				t.Fatalf("AUTN of the reference AMF does not verify on the UE side (MAC-A %x, AUTN %x)", mo.MacA, autn)
+			}
+			mnc3 := prov.MNC
+			if len(mnc3) == 2 {
+				mnc3 = "0" + mnc3
+			}
+			u.keys = refcrypto.Derive5G(mo.CK, mo.IK, mo.Res, rnd, sx, "5G:mnc"+mnc3+".mcc"+prov.MCC+".3gppnetwork.org", u.supi, 0, 2)
+			resp := append([]byte{0x7e, 0x00, 0x57, 0x2d, 0x10}, u.keys.ResStar...)
+			dl = step("AuthenticationResponse", u.uplinkNAS(t, resp), 1)
+			_, smc := dlNAS(t, dl[0])
+			// Security Mode Command: header type 3, DL COUNT 0, MAC under the derived key; NEA0/NIA2 selected
+			if smc[1] != 3 || smc[6] != 0 || refcrypto.EIA2(u.keys.KnasInt, 0, 1, 1, smc[6:]) != [4]byte{smc[2], smc[3], smc[4], smc[5]} || smc[9] != 0x5d || smc[10] != 0x02 {
+				t.Fatalf("Security Mode Command: %x", smc)
+			}
+			smcpl := []byte{0x7e, 0x00, 0x5e}
+			dl = step("SecurityModeComplete", u.uplinkNAS(t, u.protect(4, smcpl)), 1)
+			_, ra := dlNAS(t, dl[0])
+			if ra[1] != 2 || ra[6] != 1 || refcrypto.EIA2(u.keys.KnasInt, 1, 1, 1, ra[6:]) != [4]byte{ra[2], ra[3], ra[4], ra[5]} || ra[9] != 0x42 {
+				t.Fatalf("Registration Accept: %x", ra)
+			}
+			if ra[12] != 0x77 || ra[14] != 0x0b {
+				t.Fatalf("Registration Accept without 5G-GUTI: %x", ra)
+			}
+			u.guti = ra[15:26]
+			rc := u.uplinkNAS(t, u.protect(2, []byte{0x7e, 0x00, 0x43}))
+			if variant == 1 {
+				step("RegistrationComplete (before the context setup response)", rc, 1)
+				step("InitialContextSetupResponse", u.icsResponse(t, false), 0)
+			} else {
+				step("InitialContextSetupResponse", u.icsResponse(t, false), 0)
+				step("RegistrationComplete", rc, 1)
+			}
+		}
+		snssai := []byte{byte(prov.SST)}
+		if prov.SD != "" {
+			snssai = append(snssai, unhex(prov.SD)...)
+		}
+		for _, u := range ues {
+			sm := []byte{0x2e, byte(u.psi), 0x07, 0xc1, 0xff, 0xff, 0x91, 0xa1}
+			ult := append([]byte{0x7e, 0x00, 0x67, 0x01, 0x00, byte(len(sm))}, sm...)
+			ult = append(ult, 0x12, byte(u.psi), 0x81, 0x22, byte(len(snssai)))
+			ult = append(ult, snssai...)
+			ult = append(ult, 0x25, 0x09, 0x08, 'i', 'n', 't', 'e', 'r', 'n', 'e', 't')
+			dl := step("PDUSessionEstablishmentRequest", u.uplinkNAS(t, u.protect(2, ult)), 1)
+			if _, err := iewalk.ParsePDU(dl[0]); err != nil {
+				t.Fatal(err)
+			}
+			step("PDUSessionResourceSetupResponse", u.setupResponse(t), 0)
+		}
+		// service request: integrity protected only (header type 1), 5G-S-TMSI of the assigned GUTI
+		u0 := ues[0]
+		sr := []byte{0x7e, 0x00, 0x4c, 0x10 | byte(sc.UEs[0].NgKSI), 0x00, 0x07, 0xf4, 0xff, 0xff, 0, 0, 0, 0}
+		step("ServiceRequest", u0.initialUE(t, u0.protect(1, sr)), 1)
+		step("InitialContextSetupResponse (service)", u0.icsResponse(t, variant == 0), 0)
+		for _, u := range ues {
+			sm := []byte{0x2e, byte(u.psi), 0x08, 0xd1}
+			ult := append(append([]byte{0x7e, 0x00, 0x67, 0x01, 0x00, byte(len(sm))}, sm...), 0x12, byte(u.psi))
+			step("PDUSessionReleaseRequest", u.uplinkNAS(t, u.protect(2, ult)), 1)
+			sm = []byte{0x2e, byte(u.psi), 0x08, 0xd4}
+			cpl := u.uplinkNAS(t, u.protect(2, append(append([]byte{0x7e, 0x00, 0x67, 0x01, 0x00, byte(len(sm))}, sm...), 0x12, byte(u.psi))))
+			if variant == 1 {
+				step("PDUSessionReleaseComplete (before the NGAP response)", cpl, 0)
+				step("PDUSessionResourceReleaseResponse", u.releaseResponse(t), 0)
+			} else {
+				step("PDUSessionResourceReleaseResponse", u.releaseResponse(t), 0)
+				step("PDUSessionReleaseComplete", cpl, 0)
+			}
+		}
+		for i, u := range ues {
+			id := append([]byte{0x01, plmn[0], plmn[1], plmn[2], 0xf0, 0xff, 0x00, 0x00}, bcd(u.supi[3+len(prov.MNC):])...)
+			if variant == 1 {
+				id = u.guti
+			}
+			dr := append([]byte{0x7e, 0x00, 0x45, byte(sc.UEs[i].NgKSI)<<4 | 0x01, byte(len(id) >> 8), byte(len(id))}, id...)
+			step("DeregistrationRequest", u.uplinkNAS(t, u.protect(2, dr)), 2)
+			step("UEContextReleaseComplete", u.ctxReleaseComplete(t), 0)
+		}
+		want := "[ngsetup register(0) register(1) establish(0) establish(1) service(0) release(0) release(1) deregister(0) deregister(1)]"
+		if got := fmtEvents(a.Events); got != want {
+			t.Fatalf("events %s", got)
+		}
+		if p := a.Pending(); len(p) != 0 {
+			t.Fatalf("pending %v", p)
+		}
+		if v := a.CountReuse(); v != nil {
+			t.Fatal(v)
+		}
+	}
+}
+
+func atoi(s string) int {
+	n := 0
+	for _, c := range s {
+		n = n*10 + int(c-'0')
+	}
+	return n
+}
+
+// TestSelfAMFRejects: each enumerated check fires on a minimal deviation (the AMF is not vacuous).
+func TestSelfAMFRejects(t *testing.T) {
+	prov := refamf.Provision{MCC: "001", MNC: "01", IMSI: "00101012345", K: "465b5ce8b199b49faa5f0a2ee238a6bc", OPc: "cd63cb71954a9f4e48a5994e37a02baf", SST: 1, SD: "0a0b0c", GnbGTP: "192.168.0.1"}
+	sc := refamf.Scenario{Prov: prov, UEs: []refamf.UEChoice{{RAND: "23553cbe9637a89d218ae64dae47bf35", SQN: "ff9bb4d0b607", AMFField: "b9b9", AMFUEID: 1 << 32, UEIP: "1.2.3.4", UPFIP: "5.6.7.8", Cause5GSM: -1, NQoSRules: 1}}}
+	plmn := refamf.EncodePLMN("001", "01")
+	other := refamf.EncodePLMN("001", "10")
+	expect := func(what, key string, feed func(a *refamf.AMF) *refamf.Violation) {
+		a, err := refamf.New(sc)
+		if err != nil {
+			t.Fatal(err)
+		}
+		v := feed(a)
+		if v == nil || !strings.HasPrefix(v.Key, key) {
+			t.Fatalf("%s: expected a violation with key %s, got %v", what, key, v)
+		}
+	}
+	expect("wrong PLMN in NG Setup", "plmn-mismatch:mnc2", func(a *refamf.AMF) *refamf.Violation {
+		_, v := a.Handle(ngSetupRequest(t, other, []byte{1, 2, 3}, 24, "x"))
+		return v
+	})
+	expect("message before NG Setup", "before-ngsetup", func(a *refamf.AMF) *refamf.Violation {
+		u := &testUE{ran: 1, plmn: plmn}
+		_, v := a.Handle(u.initialUE(t, []byte{0x7e, 0, 0x41}))
+		return v
+	})
+	expect("truncated PDU", "ngap-decode", func(a *refamf.AMF) *refamf.Violation {
+		b := ngSetupRequest(t, plmn, []byte{1, 2, 3}, 24, "x")
+		_, v := a.Handle(b[:len(b)-1])
+		return v
+	})
+	reg := func(a *refamf.AMF, msin string) (*testUE, [][]byte, *refamf.Violation) {
+		if _, v := a.Handle(ngSetupRequest(t, plmn, []byte{1, 2, 3}, 24, "x")); v != nil {
+			t.Fatal(v)
+		}
+		u := &testUE{ran: 7, plmn: plmn, supi: "00101" + msin}
+		suci := append([]byte{0x01, plmn[0], plmn[1], plmn[2], 0xf0, 0xff, 0x00, 0x00}, bcd(msin)...)
+		rr := append([]byte{0x7e, 0x00, 0x41, 0x79, 0, byte(len(suci))}, suci...)
+		rr = append(rr, 0x2e, 0x02, 0x80, 0x20)
+		dl, v := a.Handle(u.initialUE(t, rr))
+		return u, dl, v
+	}
+	expect("MSIN of the first UE differs from the configuration", "suci-msin", func(a *refamf.AMF) *refamf.Violation {
+		_, _, v := reg(a, "012346")
+		return v
+	})
+	expect("wrong RES*", "res-star", func(a *refamf.AMF) *refamf.Violation {
+		u, dl, v := reg(a, "012345")
+		if v != nil {
+			t.Fatal(v)
+		}
+		u.amf, _ = dlNAS(t, dl[0])
+		_, v = a.Handle(u.uplinkNAS(t, append([]byte{0x7e, 0x00, 0x57, 0x2d, 0x10}, make([]byte, 16)...)))
+		return v
+	})
+	expect("AMF-UE-NGAP-ID truncated to 32 bits", "amf-ue-ngap-id", func(a *refamf.AMF) *refamf.Violation {
+		u, _, v := reg(a, "012345")
+		if v != nil {
+			t.Fatal(v)
+		}
+		u.amf = 0
+		_, v = a.Handle(u.uplinkNAS(t, append([]byte{0x7e, 0x00, 0x57, 0x2d, 0x10}, make([]byte, 16)...)))
+		return v
+	})
+}
+
+// TestSelfNASHandDerived: the NAS reader against bytes derived by hand from TS 24.501.
+func TestSelfNASHandDerived(t *testing.T) {
+	// PLMN coding (9.11.3.4): MCC 208, MNC 93 → 02 f8 39; MCC 310, MNC 410 → 13 00 14
+	if p := refamf.EncodePLMN("208", "93"); p != [3]byte{0x02, 0xf8, 0x39} {
+		t.Fatalf("PLMN 208/93 → %x", p)
+	}
+	if p := refamf.EncodePLMN("310", "410"); p != [3]byte{0x13, 0x00, 0x14} {
+		t.Fatalf("PLMN 310/410 → %x", p)
+	}
+	if mcc, mnc, err := refamf.DecodePLMN([]byte{0x13, 0x00, 0x14}); err != nil || mcc != "310" || mnc != "410" {
+		t.Fatalf("decode 130014 → %s %s %v", mcc, mnc, err)
+	}
+	if p, err := iewalk.EncodePLMN("310", "410"); err != nil || p != (iewalk.PLMN{0x13, 0x00, 0x14}) {
+		t.Fatalf("iewalk PLMN %x %v", p, err)
+	}
+	// Registration Request: initial registration, ngKSI 7 (no key), SUCI of IMSI 208 93 0000000003 (null scheme), UE security capability
+	rr := unhex("7e 00 41 79 00 0d 01 02 f8 39 f0 ff 00 00 00 00 00 00 30 2e 02 80 20")
+	m, err := refamf.ParsePlain5GMM(rr)
+	if err != nil || m.Type != 0x41 || m.NgKSI != 7 || m.RegType != 9 || m.Identity.Type != 1 || m.Identity.MCC != "208" || m.Identity.MNC != "93" ||
+		m.Identity.MSIN != "0000000003" || m.Identity.RoutingInd != "0" || m.Identity.Scheme != 0 || !bytes.Equal(m.UESecCap, []byte{0x80, 0x20}) {
+		t.Fatalf("RegistrationRequest: %+v %+v %v", m, m.Identity, err)
+	}
+	// odd number of MSIN digits: filler 0xF in the last octet; 3-digit MNC 410
+	id, err := refamf.ParseMobileIdentity(unhex("01 13 00 14 f0 ff 00 00 21 43 f5"))
+	if err != nil || id.MCC != "310" || id.MNC != "410" || id.MSIN != "12345" {
+		t.Fatalf("SUCI: %+v %v", id, err)
+	}
+	// security protected message: header type 2, MAC, SQN 5, then UL NAS TRANSPORT with N1 SM container,
+	// PDU session ID 5, request type initial, S-NSSAI sst 1 sd 010203, DNN
+	ul := unhex("7e 02 aa bb cc dd 05 7e 00 67 01 00 06 2e 05 01 c1 ff ff 12 05 81 22 04 01 01 02 03 25 04 03 61 62 63")
+	e, err := refamf.ParseEnvelope(ul)
+	if err != nil || e.HeaderType != 2 || e.SQN != 5 || e.MAC != [4]byte{0xaa, 0xbb, 0xcc, 0xdd} || len(e.Protected) != len(ul)-6 {
+		t.Fatalf("envelope %+v %v", e, err)
+	}
+	m, err = refamf.ParsePlain5GMM(e.Plain)
+	if err != nil || m.Type != 0x67 || m.PayloadType != 1 || !m.HasPSI || m.PSI != 5 || !m.HasReqType || m.ReqType != 1 || !bytes.Equal(m.SNSSAI, []byte{1, 1, 2, 3}) || string(m.DNN) != "\x03abc" {
+		t.Fatalf("ULNASTransport %+v %v", m, err)
+	}
+	sm, err := refamf.Parse5GSM(m.Payload)
+	if err != nil || sm.Type != 0xc1 || sm.SMPSI != 5 || sm.SMPTI != 1 {
+		t.Fatalf("5GSM %+v %v", sm, err)
+	}
+	// truncated optional part
+	if _, err := refamf.ParsePlain5GMM(unhex("7e 00 67 01 00 04 2e 05 01 c1 12")); err == nil {
+		t.Fatal("truncated TV element accepted")
+	}
+	// De-registration request: normal de-registration over 3GPP access, ngKSI 2, 5G-GUTI
+	dr := unhex("7e 00 45 21 00 0b f2 02 f8 39 ca fe 40 00 00 00 01")
+	m, err = refamf.ParsePlain5GMM(dr)
+	if err != nil || m.NgKSI != 2 || m.DeregType != 1 || m.Identity.Type != 2 || m.Identity.AMFRegion != 0xca || m.Identity.AMFSet != 0xfe<<2|1 || m.Identity.TMSI != [4]byte{0, 0, 0, 1} {
+		t.Fatalf("DeregistrationRequest %+v %+v %v", m, m.Identity, err)
 	}
 }
